@@ -9,7 +9,7 @@ import z3
 
 from . import smt
 from .values import (Sym, SInt, SBool, SVal, SKey, SSeq, SView, SMap, SObj, ClassRef, Closure, BoundMethod,
-                     Builtin, AbstractCallable, PyExc, OutOfSubset)
+                     Builtin, AbstractCallable, PyExc, OutOfSubset, LazyDict, unmap)
 
 NotImpl = NotImplemented
 
@@ -21,6 +21,8 @@ def has_sym(v, depth=0):
         return False
     if isinstance(v, (list, tuple, set, frozenset)):
         return any(has_sym(x, depth + 1) for x in v)
+    if isinstance(v, LazyDict) and v.sym is not None:
+        return True
     if isinstance(v, dict):
         return any(has_sym(k, depth + 1) or has_sym(x, depth + 1) for k, x in v.items())
     if isinstance(v, slice):
@@ -261,6 +263,7 @@ class Ops(object):
 
     # ------------------------------------------------------------ attribute access
     def getattr(self, it, obj, name):
+        obj = unmap(obj)
         w = self.world
         if isinstance(obj, SObj):
             if name in obj.fields:
@@ -352,6 +355,7 @@ class Ops(object):
 
     # ------------------------------------------------------------ subscripts
     def getitem(self, it, obj, key):
+        obj = unmap(obj)
         if isinstance(obj, SObj):
             return it.call_method(obj, '__getitem__', [key])
         if isinstance(obj, SSeq):
@@ -407,6 +411,7 @@ class Ops(object):
             it.raise_(type(e).__name__, str(e))
 
     def setitem(self, it, obj, key, v):
+        obj = unmap(obj)
         if isinstance(obj, SObj):
             it.call_method(obj, '__setitem__', [key, v])
             return
@@ -436,6 +441,11 @@ class Ops(object):
             return
         if isinstance(obj, dict):
             if isinstance(key, Sym):
+                if isinstance(obj, LazyDict) and len(obj) == 0 and isinstance(key, (SKey, SVal)) and isinstance(v, (SKey, SVal)):
+                    ks, vs = key.term.sort(), v.term.sort()
+                    obj.sym = SMap(z3.K(ks, z3.BoolVal(False)), z3.K(ks, it.ctx.fresh('dflt', vs)), z3.IntVal(0), ks, vs)
+                    self.map_set(it, obj.sym, key, v)
+                    return
                 for k in list(obj):
                     if it.truth(self.compare(it, 'Eq', k, key)):
                         obj[k] = v
@@ -446,6 +456,7 @@ class Ops(object):
         raise OutOfSubset('setitem on %r' % (obj,))
 
     def delitem(self, it, obj, key):
+        obj = unmap(obj)
         if isinstance(obj, SObj):
             it.call_method(obj, '__delitem__', [key])
             return
@@ -482,6 +493,7 @@ class Ops(object):
 
     # ------------------------------------------------------------ iteration
     def iter_view(self, it, v):
+        v = unmap(v)
         """-> python list (concrete length) | SSeq | SView | None"""
         if isinstance(v, (SSeq, SView)):
             return v
@@ -806,6 +818,7 @@ class Ops(object):
         return a is b
 
     def contains(self, it, container, x):
+        container = unmap(container)
         if isinstance(container, SObj):
             c, m = container.cls.find_method('__contains__')
             if m is not None:
